@@ -121,6 +121,28 @@ func fillRequest(e *env, req proto.Message, out protoreflect.MessageDescriptor) 
 	m := req.ProtoReflect()
 	fill(e.r, m, 55, 0)
 	fds := m.Descriptor().Fields()
+	defer func() {
+		// ids, versions, names: often a value that an earlier response carried in a field of the same name
+		reuse := func(pm protoreflect.Message) {
+			pf := pm.Descriptor().Fields()
+			for i := 0; i < pf.Len(); i++ {
+				fd := pf.Get(i)
+				if fd.Kind() != protoreflect.StringKind || fd.IsList() || fd.IsMap() || !e.flip(60) {
+					continue
+				}
+				if v, ok := e.t.known(string(fd.Name()), e.r); ok {
+					pm.Set(fd, protoreflect.ValueOfString(v))
+				}
+			}
+		}
+		reuse(m)
+		for i := 0; i < fds.Len(); i++ {
+			fd := fds.Get(i)
+			if fd.Message() != nil && !fd.IsList() && !fd.IsMap() && !isWKT(fd.Message()) && m.Has(fd) {
+				reuse(m.Get(fd).Message())
+			}
+		}
+	}()
 	for i := 0; i < fds.Len(); i++ {
 		fd := fds.Get(i)
 		switch {
@@ -280,7 +302,8 @@ func serverTarget(model string, typ reflect.Type, mk func(model any) any, descs 
 }
 
 func init() {
-	serverTarget("access", reflect.TypeOf(&accesspb.ModelServer{}), func(m any) any { return accesspb.NewModelServer(m.(*accesspb.Model)) })
+	serverTarget("access", reflect.TypeOf(&accesspb.ModelServer{}), func(m any) any { return accesspb.NewModelServer(m.(*accesspb.Model)) },
+		&traits.AccessApi_ServiceDesc) // Register takes a *grpc.Server
 	serverTarget("airquality", reflect.TypeOf(&airqualitysensorpb.ModelServer{}), func(m any) any { return airqualitysensorpb.NewModelServer(m.(*airqualitysensorpb.Model)) })
 	serverTarget("airtemperature", reflect.TypeOf(&airtemperaturepb.ModelServer{}), func(m any) any { return airtemperaturepb.NewModelServer(m.(*airtemperaturepb.Model)) })
 	serverTarget("booking", reflect.TypeOf(&bookingpb.ModelServer{}), func(m any) any { return bookingpb.NewModelServer(m.(*bookingpb.Model)) })
@@ -291,14 +314,17 @@ func init() {
 	serverTarget("hail", reflect.TypeOf(&hailpb.ModelServer{}), func(m any) any { return hailpb.NewModelServer(m.(*hailpb.Model)) })
 	serverTarget("light", reflect.TypeOf(&lightpb.ModelServer{}), func(m any) any { return lightpb.NewModelServer(m.(*lightpb.Model)) })
 	serverTarget("metadata", reflect.TypeOf(&metadatapb.ModelServer{}), func(m any) any { return metadatapb.NewModelServer(m.(*metadatapb.Model)) })
-	serverTarget("meter", reflect.TypeOf(&meterpb.ModelServer{}), func(m any) any { return meterpb.NewModelServer(m.(*meterpb.Model)) })
+	serverTarget("meter", reflect.TypeOf(&meterpb.ModelServer{}), func(m any) any { return meterpb.NewModelServer(m.(*meterpb.Model)) },
+		&traits.MeterApi_ServiceDesc) // Register takes a *grpc.Server
 	serverTarget("mode", reflect.TypeOf(&modepb.ModelServer{}), func(m any) any { return modepb.NewModelServer(m.(*modepb.Model)) })
 	serverTarget("occupancy", reflect.TypeOf(&occupancysensorpb.ModelServer{}), func(m any) any { return occupancysensorpb.NewModelServer(m.(*occupancysensorpb.Model)) })
 	serverTarget("onoff", reflect.TypeOf(&onoffpb.ModelServer{}), func(m any) any { return onoffpb.NewModelServer(m.(*onoffpb.Model)) })
-	serverTarget("openclose", reflect.TypeOf(&openclosepb.ModelServer{}), func(m any) any { return openclosepb.NewModelServer(m.(*openclosepb.Model)) })
+	serverTarget("openclose", reflect.TypeOf(&openclosepb.ModelServer{}), func(m any) any { return openclosepb.NewModelServer(m.(*openclosepb.Model)) },
+		&traits.OpenCloseInfo_ServiceDesc) // Register only registers the Api
 	serverTarget("parent", reflect.TypeOf(&parentpb.ModelServer{}), func(m any) any { return parentpb.NewModelServer(m.(*parentpb.Model)) },
 		&traits.ParentApi_ServiceDesc)
 	serverTarget("publication", reflect.TypeOf(&publicationpb.ModelServer{}), func(m any) any { return publicationpb.NewModelServer(m.(*publicationpb.Model)) })
 	serverTarget("vending", reflect.TypeOf(&vendingpb.ModelServer{}), func(m any) any { return vendingpb.NewModelServer(m.(*vendingpb.Model)) })
-	serverTarget("waste", reflect.TypeOf(&wastepb.ModelServer{}), func(m any) any { return wastepb.NewModelServer(m.(*wastepb.Model)) })
+	serverTarget("waste", reflect.TypeOf(&wastepb.ModelServer{}), func(m any) any { return wastepb.NewModelServer(m.(*wastepb.Model)) },
+		&traits.WasteApi_ServiceDesc) // Register takes a *grpc.Server
 }
